@@ -290,19 +290,21 @@ static int ratom_match(struct ratom *ra, struct rstate *rs)
 		return 0;
 	}
 	if (ra->ra == RA_CHR) {
-		int pos = 0;
-		while (ra->s[pos]) {
-			int c1 = uc_dec(ra->s + pos);
-			int c2 = uc_dec(rs->s + pos);
+		char *s = ra->s;
+		char *r = rs->s;
+		while (*s) {
+			int c1 = uc_dec(s);
+			int c2 = uc_dec(r);
 			if (rs->flg & REG_ICASE && c1 < 128 && isupper(c1))
 				c1 = tolower(c1);
 			if (rs->flg & REG_ICASE && c2 < 128 && isupper(c2))
 				c2 = tolower(c2);
 			if (c1 != c2)
 				return 1;
-			pos += uc_len(ra->s + pos);
+			s += uc_len(s);
+			r += uc_len(r);
 		}
-		rs->s += pos;
+		rs->s = r;
 		return 0;
 	}
 	if (ra->ra == RA_ANY) {
